@@ -79,8 +79,10 @@ func (c *RedialPacketConn) dialLoop() {
 // packets in the receive queue, and takes packets from the send queue and calls
 // WriteTo on them, making the current net.PacketConn active.
 func (c *RedialPacketConn) exchange(conn net.PacketConn) {
-	readErrCh := make(chan error)
-	writeErrCh := make(chan error)
+	// Each goroutine sends at most one error and the receiver below takes
+	// only one of the two: leave room so that the other sender never blocks.
+	readErrCh := make(chan error, 1)
+	writeErrCh := make(chan error, 1)
 
 	go func() {
 		defer close(readErrCh)
